@@ -132,6 +132,22 @@ pub fn run(o: &DetectOpts) -> serde_json::Value {
         }
     } else {
         cases.extend(fixed_cases());
+        // minimised inputs of past disagreements / misses run first
+        if let Ok(rd) = std::fs::read_dir("/verif/corpus/detect") {
+            let mut ps: Vec<_> = rd.filter_map(|e| e.ok().map(|e| e.path())).collect();
+            ps.sort();
+            for p in ps {
+                if let Ok(txt) = std::fs::read_to_string(&p) {
+                    if let Ok(v) = serde_json::from_str::<serde_json::Value>(&txt) {
+                        for it in v.as_array().cloned().unwrap_or_default() {
+                            if let Some(h) = it["bytes_hex"].as_str() {
+                                cases.push(Case { kind: format!("corpus:{}", p.file_stem().unwrap().to_string_lossy()), bytes: unhex(h), settings: settings_from_json(&it["settings"]) });
+                            }
+                        }
+                    }
+                }
+            }
+        }
         // corpus files themselves (default settings) -- a deterministic slice of them
         let stride = (corpus.files.len() / 24).max(1);
         for (i, f) in corpus.files.iter().enumerate() {
@@ -141,6 +157,18 @@ pub fn run(o: &DetectOpts) -> serde_json::Value {
         }
         while cases.len() < o.n {
             let mut c = gen_case(&mut rng, &corpus, o.max_len);
+            if o.focus == "C09" && rng.chance(2, 3) {
+                // similarity-heavy stream: single-byte word soups where similar code pages disagree
+                for _ in 0..40 {
+                    if c.kind.starts_with("highbyte-words") {
+                        break;
+                    }
+                    c = gen_case(&mut rng, &corpus, o.max_len);
+                }
+                if rng.chance(1, 2) {
+                    c.settings = default_settings();
+                }
+            }
             if o.focus == "C05" && c.settings.include_encodings.is_empty() && c.settings.exclude_encodings.is_empty() {
                 // filter-heavy stream: random labels in any spelling, sometimes an unknown one
                 let n = rng.range(1, 8);
@@ -165,6 +193,49 @@ pub fn run(o: &DetectOpts) -> serde_json::Value {
                 c.kind = format!("{}+mark", c.kind);
             }
             cases.push(c);
+        }
+        if o.focus == "C09" {
+            // directed search for inputs on which the DIRECTION of the similarity relation matters:
+            // an asymmetrically-similar pair (a lists b, b does not list a) with a soft-failing and b
+            // accepted when probed alone.  Candidates are screened with stand-alone runs.
+            let asym = asymmetric_similar_pairs();
+            let mut kept = 0;
+            let mut tried = 0;
+            while !asym.is_empty() && kept < 6 && tried < 60000 {
+                tried += 1;
+                let (a, b, diff) = rng.pick(&asym).clone();
+                if diff.is_empty() {
+                    continue;
+                }
+                let np = rng.range(1, 3);
+                let mut pal: Vec<u8> = vec![];
+                for _ in 0..np {
+                    pal.push(*rng.pick(&diff));
+                }
+                if rng.chance(1, 2) {
+                    pal.push(rng.range(0xa0, 0xff) as u8);
+                }
+                let wn = rng.range(2, 6);
+                let mut unit: Vec<u8> = vec![];
+                for _ in 0..wn {
+                    let wl = rng.range(1, 5);
+                    for _ in 0..wl {
+                        if rng.chance(1, 2) { unit.push(*rng.pick(&pal)); } else { unit.push(b'a' + rng.below(26) as u8); }
+                    }
+                    unit.push(b' ');
+                }
+                let mut bytes = vec![];
+                for _ in 0..rng.range(6, 20) {
+                    bytes.extend_from_slice(&unit);
+                }
+                let s = default_settings();
+                if matches!(alone(&bytes, &s, &a), Alone::Soft) && matches!(alone(&bytes, &s, &b), Alone::Accept(_))
+                    && reconstruct(&bytes, &s).0.contains(&a)
+                {
+                    kept += 1;
+                    cases.push(Case { kind: format!("directed-similarity({}->{})", a, b), bytes, settings: s });
+                }
+            }
         }
         // large payloads: both sides of the lazy limits.  Variants (k mod 4):
         //  0 clean ASCII, default threshold            1 ASCII + high byte after 500,000, threshold 0 (fall-back paths)
